@@ -384,7 +384,7 @@ func (s *State) constOf(t *Term) (*Term, bool) {
 // nonNil reports whether a term is known to denote a non-nil value.
 func nonNil(t *Term) bool {
 	switch t.Op {
-	case "alloc", "closure", "mapobj", "err", "gval", "nonnil", "func", "global", "field", "index", "slice", "bw":
+	case "alloc", "closure", "mapobj", "err", "gval", "nonnil", "func", "global", "field", "index", "slice", "bw", "file", "reader", "writer", "merged":
 		return true
 	case "const":
 		return t.Aux != "nil"
